@@ -376,13 +376,21 @@ func table(b *strings.Builder, name, doc, file, recv, fn string, v *vocab) {
 // tableBody: the paths through the body of the first `for … range` of the function (one iteration; a path that does not return goes on
 // with the next element: `.retVoid`).
 func tableBody(b *strings.Builder, name, doc, file, recv, fn string, v *vocab) {
+	tableBodyN(b, name, doc, file, recv, fn, v, 0)
+}
+
+// tableBodyN: the body of the idx-th top-level range loop
+func tableBodyN(b *strings.Builder, name, doc, file, recv, fn string, v *vocab, idx int) {
 	f := skel.Parse(prog, file)
 	fd := skel.Func(prog, f, recv, fn)
 	skel.Lines(fd)
 	var body []ast.Stmt
 	for _, s := range fd.Body.List {
-		if rs, ok := s.(*ast.RangeStmt); ok && body == nil {
-			body = rs.Body.List
+		if rs, ok := s.(*ast.RangeStmt); ok {
+			if idx == 0 && body == nil {
+				body = rs.Body.List
+			}
+			idx--
 		}
 	}
 	ps := []path{{acts: []string{".unknown /- no range loop -/"}, done: true}}
@@ -531,6 +539,16 @@ func main() {
 		lsv.acts["pinInfo.Status = "+k] = ".setStatus " + c
 	}
 	tableBody(&b, "localBody", "Tracker.localStatus: one pin of the pinset (the listing StatusAll / RecoverAll start from)", st, "*Tracker", "localStatus", lsv)
+	sav := func() *vocab {
+		return mk(map[string]string{"err == nil": ".errNil", "pi.Status.Match(filter)": ".fMatchSelf"}, map[string]string{
+			"pininfos, err := spt.localStatus(ctx, true, filter)": ".localAll", "return nil, err": ".retErr",
+			"range spt.optracker.GetAll(ctx)": ".overlayOps", "var pis []*api.PinInfo": "", "range pininfos": ".filterLoop", "return pis, nil": ".retNil",
+			"pininfos[infop.Cid] = infop": ".putOp", "pis = append(pis, pi)": ".appendResp",
+		})
+	}
+	table(&b, "statusAll", "Tracker.statusAll (each loop is one action)", st, "*Tracker", "statusAll", sav())
+	tableBodyN(&b, "statusAllOverlay", "Tracker.statusAll: the overlay of the operation table", st, "*Tracker", "statusAll", sav(), 0)
+	tableBodyN(&b, "statusAllFilter", "Tracker.statusAll: the last filter", st, "*Tracker", "statusAll", sav(), 1)
 	consts(&b, "phaseConsts", op, "Phase")
 	consts(&b, "typeConsts", op, "OperationType")
 	b.WriteString("end CV.C05.Gen.Sem\n")
